@@ -7,7 +7,7 @@
 (* boundary counts and admissible classification, per-area failure points. *)
 (***************************************************************************)
 EXTENDS Sensing, TLC, Randomization
-CONSTANTS PX, PY, PZ, Centres, Sizes, Dirs, Scales, Areas, VisSet, T0T1, MinPtsSet, MaxObjs, Sample
+CONSTANTS PX, PY, PZ, Centres, Sizes, Dirs, Scales, Areas, VisSet, T0T1, MinPtsSet, MaxObjs, Sample, FarDists
 
 VARIABLES kind, box, scale, objs, cfg, areas, phase, out
 
@@ -26,6 +26,8 @@ ObjScale(o, g) == ScaleAt(g.t[1], g.t[2], Dist(o.box.c))
 Init ==
   /\ phase = "input" /\ out = <<>>
   /\ \/ kind = "box" /\ box \in BoxSpace /\ scale \in Scales /\ objs = <<>> /\ cfg = <<>> /\ areas = <<>>
+     \* the distance-dependent scale itself, also beyond 100 m (scale = <<distance, 1>>)
+     \/ kind = "scale" /\ box = NoBox /\ scale \in {<<d, 1>> : d \in FarDists} /\ objs = <<>> /\ areas = <<>> /\ cfg \in [t : T0T1, minPts : {0}]
      \/ kind = "frame" /\ box = NoBox /\ scale = <<1, 1>>
         /\ objs \in UNION {RandomSubset(Sample, [1..n -> ObjSpace]) : n \in 1..MaxObjs}
         \* the threshold set always contains the first object's exact inside count (the >= / > boundary)
@@ -50,6 +52,7 @@ MayFail(ar) == {p \in Cloud : (InPrism(ar, p) \/ PrismBoundary(ar, p)) /\ \A i \
 Eval ==
   /\ phase = "input" /\ phase' = "done"
   /\ out' = IF kind = "box" THEN [inside |-> InsideSet(box, scale), boundary |-> BoundarySet(box, scale)]
+            ELSE IF kind = "scale" THEN [scaleAt |-> ScaleAt(cfg.t[1], cfg.t[2], scale[1])]
             ELSE [objects |-> [i \in 1..Len(objs) |->
                                  [inside |-> Cardinality(InsideSet(objs[i].box, ObjScale(objs[i], cfg))),
                                   boundary |-> Cardinality(BoundarySet(objs[i].box, ObjScale(objs[i], cfg))),
